@@ -42,6 +42,8 @@ unfL = z3.Function('unfL', Core, Mat)                # reshape(G, (r1*n, r2), or
 unfR = z3.Function('unfR', Core, Mat)                # reshape(G, (r1, n*r2), order='F')
 foldL = z3.Function('foldL', Mat, I, I, Core)        # reshape(A, (r1, n, cols(A)), order='F')
 foldR = z3.Function('foldR', Mat, I, I, Core)        # reshape(A, (rows(A), n, r2), order='F')
+rowblk = z3.Function('rowblk', Mat, I, I, Mat)       # A[j*r:(j+1)*r, :]
+colsel = z3.Function('colsel', Mat, I, I, Mat)       # A[:, j::n]
 msum = z3.Function('msum', Core, Mat)                # np.sum(G, axis=1)
 wsum = z3.Function('wsum', Core, z3.ArraySort(I, R), Mat)   # np.einsum('rmq,m->rq', G, p)
 chain = z3.Function('chain', TT, IDX, I, Mat)        # sl(Y[0],i0) @ ... @ sl(Y[k],ik)
@@ -171,10 +173,41 @@ GROUPS['row'] = [
     A([a_, b_, j_], row(mm(a_, b_), j_) == mm(row(a_, j_), b_), [row(mm(a_, b_), j_)]),
 ]
 
+# ---- Fortran-order unfoldings of a core (statements about np.reshape(order='F'); spot-checked, not in Lean)
+GROUPS['unfold'] = [
+    A([G_, j_], z3.Implies(z3.And(0 <= j_, j_ < d1(G_)), sl(G_, j_) == rowblk(unfL(G_), j_, d0(G_))), [sl(G_, j_)]),
+    A([G_, j_], z3.Implies(z3.And(0 <= j_, j_ < d1(G_)), sl(G_, j_) == colsel(unfR(G_), j_, d1(G_))), [sl(G_, j_)]),
+    A([a_, m_, n_], z3.Implies(z3.And(m_ >= 1, n_ >= 1, rows(a_) == mulI(m_, n_)), unfL(foldL(a_, m_, n_)) == a_),
+      [foldL(a_, m_, n_)]),
+    A([a_, m_, n_], z3.Implies(z3.And(m_ >= 1, n_ >= 1, cols(a_) == mulI(m_, n_)), unfR(foldR(a_, m_, n_)) == a_),
+      [foldR(a_, m_, n_)]),
+    A([a_, b_, j_, m_], z3.Implies(cols(a_) == rows(b_), rowblk(mm(a_, b_), j_, m_) == mm(rowblk(a_, j_, m_), b_)),
+      [rowblk(mm(a_, b_), j_, m_)]),
+    A([a_, b_, j_, n_], z3.Implies(cols(a_) == rows(b_), colsel(mm(a_, b_), j_, n_) == mm(a_, colsel(b_, j_, n_))),
+      [colsel(mm(a_, b_), j_, n_)]),
+    A([a_, j_, m_], z3.And(rows(rowblk(a_, j_, m_)) == m_, cols(rowblk(a_, j_, m_)) == cols(a_)), [rowblk(a_, j_, m_)]),
+    A([a_, j_, n_], rows(colsel(a_, j_, n_)) == rows(a_), [colsel(a_, j_, n_)]),
+]
+
 # ---- integer / real helper functions
+# NB: every axiom must be free of matching loops (its instances must not create new terms that match its own
+# pattern); recursive definitions therefore use two-variable multi-patterns that only relate existing terms.
 GROUPS['pow2'] = [
     pow2(0) == 1,
-    A([q_], z3.Implies(q_ >= 0, z3.And(pow2(q_) >= 1, pow2(q_ + 1) == 2 * pow2(q_))), [pow2(q_)]),
+    A([q_], z3.Implies(q_ >= 0, pow2(q_) >= 1), [pow2(q_)]),
+    A([q_, p_], z3.Implies(z3.And(q_ >= 0, p_ == q_ + 1), pow2(p_) == 2 * pow2(q_)), [z3.MultiPattern(pow2(q_), pow2(p_))]),
+]
+GROUPS['pow2r'] = [
+    A([x_], pow2r(x_) > 0, [pow2r(x_)]),
+    A([x_, y_], z3.Implies(y_ == x_ + 1, pow2r(y_) == 2 * pow2r(x_)), [z3.MultiPattern(pow2r(x_), pow2r(y_))]),
+    pow2r(0) == 1,
+    # characterisation of log2 against integer powers of two: k <= log2 x  <=>  2^k <= x   (x > 0)
+    A([x_, k_], z3.Implies(x_ > 0, (z3.ToReal(k_) <= log2(x_)) == (pow2r(z3.ToReal(k_)) <= x_)),
+      [z3.MultiPattern(log2(x_), pow2r(z3.ToReal(k_)))]),
+]
+GROUPS['cscale'] = [
+    A([x_, y_, G_], cscale(x_, cscale(y_, G_)) == cscale(x_ * y_, G_), [cscale(x_, cscale(y_, G_))]),
+    A([G_], cscale(1, G_) == G_, [cscale(1, G_)]),
 ]
 GROUPS['real'] = [
     A([x_], z3.Implies(x_ >= 0, z3.And(sqrt(x_) >= 0, sqrt(x_) * sqrt(x_) == x_)), [sqrt(x_)]),
@@ -188,7 +221,8 @@ def wf(Y, d):
     return z3.And(
         d >= 2, d0(Y[0]) == 1, d2(Y[d - 1]) == 1,
         A([k_], z3.Implies(z3.And(0 <= k_, k_ < d), z3.And(d0(Y[k_]) >= 1, d1(Y[k_]) >= 1, d2(Y[k_]) >= 1)), [Y[k_]]),
-        A([k_], z3.Implies(z3.And(0 <= k_, k_ < d - 1), d2(Y[k_]) == d0(Y[k_ + 1])), [Y[k_]]))
+        A([k_, j_], z3.Implies(z3.And(0 <= k_, j_ == k_ + 1, j_ < d), d2(Y[k_]) == d0(Y[j_])),
+          [z3.MultiPattern(Y[k_], Y[j_])]))
 
 
 def index_ok(ix, Y, d):
